@@ -12,7 +12,6 @@ import (
 	"math/rand"
 	"net"
 	"net/http"
-	"regexp"
 	"runtime"
 	"sort"
 	"strconv"
@@ -273,8 +272,6 @@ func goid() string {
 	}
 	return ""
 }
-
-var reAnswer = regexp.MustCompile(`^<a xmlns="urn:xmpp:sm:3" h="(\d+)"></a>$`)
 
 type recvLog struct {
 	mu    sync.Mutex
@@ -570,15 +567,13 @@ func (h *stubHooks) Ping() error                  { return h.tr.Ping() }
 func (h *stubHooks) Read(p []byte) (int, error)   { return h.tr.Read(p) }
 func (h *stubHooks) Write(p []byte) (int, error) {
 	n, err := h.tr.Write(p)
-	m := reAnswer.FindSubmatch(p)
+	v, isAnswer := smAnswerH(p) // the element <a h=/>, whatever its spelling
 	switch {
-	case m == nil:
+	case !isAnswer:
 		h.lg.addSync(L(Z(99), SBytes(string(p))))
 	case err != nil:
-		v, _ := strconv.Atoi(string(m[1]))
 		h.lg.addSync(L(Z(3), Zi(v)))
 	default:
-		v, _ := strconv.Atoi(string(m[1]))
 		h.lg.addSync(L(Z(2), Zi(v)))
 	}
 	return n, err
@@ -592,7 +587,7 @@ func (h *stubHooks) ReceivedStreamClose() { h.lg.addSync(L(Z(8))); h.tr.Received
 // frame; when everything has been routed the CLIENT closes the transport (a loss of
 // the websocket by the peer is only noticed through the keepalive ping, C18).
 func runRecvWS(in recvIn) Sx {
-	base, err := net.Listen("tcp", "127.0.0.1:0")
+	base, err := listenLoopback()
 	if err != nil {
 		return L(SBytes("listen-failed"))
 	}
@@ -623,8 +618,7 @@ func runRecvWS(in recvIn) Sx {
 				if err != nil {
 					return
 				}
-				if m := reAnswer.FindSubmatch(data); m != nil {
-					v, _ := strconv.Atoi(string(m[1]))
+				if v, ok := smAnswerH(data); ok {
 					smu.Lock()
 					answers = append(answers, L(Z(2), Zi(v)))
 					smu.Unlock()
